@@ -921,7 +921,7 @@ impl Analyzable for PropertyOp {
 
         // a field name isn't a value, it's only looked up on the type of the operand
         let path = match self.property.as_mut() {
-            DataExpr::Identifier(x) => x.analyze(self.scope.clone()),
+            DataExpr::Identifier(x) if is_field_name => x.analyze(self.scope.clone()),
             x => x.analyze(self.scope.clone()),
         };
 
